@@ -1,4 +1,5 @@
 import QuartzModel.Queue.JobQueue
+import QuartzModel.Cron.NextFire
 /-!
 # Scheduler registry operations and the dispatch step
 (model of `quartz/scheduler.go`: ScheduleJob, DeleteJob, PauseJob, ResumeJob, Clear, GetScheduledJob,
@@ -16,6 +17,8 @@ inductive Trig where
   | runOnce (delay : Int) (expired : Bool)
   | script (answers : List (Option Int))     -- `none` / exhausted = the trigger's own error
   | fixed (v : Int)
+  /-- `quartz.CronTrigger` in a fixed-offset location: parsed fields and the offset (seconds east of UTC) -/
+  | cron (f : Cron.Fields) (offset : Int)
 deriving DecidableEq, Repr, Inhabited
 
 /-- `Trigger.NextFireTime(prev)`: result (`none` = error) and the trigger's new state -/
@@ -27,6 +30,10 @@ def Trig.fire (t : Trig) (prev : Int) : Option Int × Trig :=
   | .script [] => (none, t)
   | .script (a :: rest) => (a, .script rest)
   | .fixed v => (some v, t)
+  | .cron f c =>
+    match Cron.nextFire {} f (Cron.fixedZone c) prev with
+    | .ok r => (some r, t)
+    | _ => (none, t)
 
 inductive SErr where
   | illegalArgument | jobAlreadyExists | jobNotFound | jobIsSuspended | jobIsActive | triggerError | queueEmpty
